@@ -103,7 +103,32 @@ struct Run {
     classes: Vec<Class>,
     sink: Vec<u8>,
     /// hook flags at the end (None when the writer is gone)
-    hook: Option<zip::write::VerifWriterState>,
+    hook: Option<HookState>,
+}
+
+/// Snapshot of the writer's mode machine through hook H1; an empty stand-in when the harness had to be built
+/// without the hook (the search then distinguishes states by sink bytes and model state only).
+#[cfg(zip_rs_zip_verif)]
+type HookState = zip::write::VerifWriterState;
+#[cfg(not(zip_rs_zip_verif))]
+#[derive(Debug, Clone)]
+pub struct HookState {
+    pub writing_to_file: bool,
+    pub writing_to_extra_field: bool,
+    pub writing_to_central_extra_field_only: bool,
+    pub writing_raw: bool,
+    pub inner: &'static str,
+    pub files: usize,
+    pub stats_start: u64,
+    pub bytes_written: u64,
+}
+#[cfg(zip_rs_zip_verif)]
+fn hook_of<S: std::io::Write + std::io::Seek>(w: &W<S>) -> HookState {
+    w.writer().verif_state()
+}
+#[cfg(not(zip_rs_zip_verif))]
+fn hook_of<S: std::io::Write + std::io::Seek>(_w: &W<S>) -> HookState {
+    HookState { writing_to_file: false, writing_to_extra_field: false, writing_to_central_extra_field_only: false, writing_raw: false, inner: "unknown", files: 0, stats_start: 0, bytes_written: 0 }
 }
 
 fn execute(hist: &[Call], src_bytes: &[Vec<u8>]) -> Run {
@@ -119,7 +144,7 @@ fn execute(hist: &[Call], src_bytes: &[Vec<u8>]) -> Run {
         res.push(r);
         classes.push(class);
     }
-    let hook = if w.alive() { Some(w.writer().verif_state()) } else { None };
+    let hook = if w.alive() { Some(hook_of(&w)) } else { None };
     let mut fp = model.hash64();
     fp = fnv_mix(fp, sink.hash());
     fp = fnv_mix(fp, sink.len() as u64);
@@ -145,7 +170,10 @@ fn case_json(hist: &[Call], names: &[&str]) -> Value {
 }
 
 /// refinement mapping: hook flags <-> model mode. Returns a description on mismatch.
-fn refinement(model: &Model, h: &zip::write::VerifWriterState) -> Option<String> {
+fn refinement(model: &Model, h: &HookState) -> Option<String> {
+    if h.inner == "unknown" {
+        return None;
+    }
     let closed = h.inner == "closed";
     let ok = match model.mode {
         Mode::Unknown => true,
